@@ -77,7 +77,7 @@ func verify(w *hx.World, before int, name string, key uint16, lun byte, want map
 
 func TestCatalogue(t *testing.T) {
 	cat := hx.Catalogue()
-	ev.Check(t, "TestCatalogue", ev.Pick(8000, 400000), func(t *rapid.T) {
+	ev.Check(t, "TestCatalogue", ev.PickN(8000, 400000), func(t *rapid.T) {
 		creds := hx.Creds{User: "u", Password: []byte("p"), Priv: 4, Suite: rapid.SampledFrom(hx.Suites9()).Draw(t, "suite"), Seed: rapid.Uint64().Draw(t, "seed")}
 		w := hx.NewWorldFor(creds, true)
 		inside := rapid.Bool().Draw(t, "inside")
@@ -233,7 +233,7 @@ func TestEnumerated(t *testing.T) {
 // TestHandshakePayloads observes Open Session Request, RAKP1 and RAKP3 for
 // generated options, and checks that over-long usernames are refused.
 func TestHandshakePayloads(t *testing.T) {
-	ev.Check(t, "TestHandshakePayloads", ev.Pick(3000, 150000), func(t *rapid.T) {
+	ev.Check(t, "TestHandshakePayloads", ev.PickN(3000, 150000), func(t *rapid.T) {
 		c := hx.GenCreds(hx.Suites9()).Draw(t, "creds")
 		long := rapid.IntRange(0, 4).Draw(t, "longName") == 0
 		if long {
